@@ -201,7 +201,13 @@ Fixpoint syllabify_loop (text : list str) (strip_ tolerant : bool) : list str * 
             if tolerant then syllabify_loop r strip_ tolerant else ([], SError ValueError)
           | Raise e => ([], SError e)
           | Ok sylls =>
+            (* since fix 88bc4d9 the restoration is inside the try block: an IndexError (a multi-character
+               phone cut by a syllable boundary) is reported like an unsyllabifiable utterance *)
             match restore_phone_separators sylls index strip_ with
+            | Raise IndexError =>
+              if tolerant then syllabify_loop r strip_ tolerant else ([], SError ValueError)
+            | Raise RuntimeError =>
+              if tolerant then syllabify_loop r strip_ tolerant else ([], SError ValueError)
             | Raise e => ([], SError e)
             | Ok o => let '(os, e) := syllabify_loop r strip_ tolerant in (o :: os, e)
             end
